@@ -112,8 +112,40 @@ func runCheck(id, tier string, o runOpts) int {
 		prop.Run(ctx)
 	}()
 
+	// second reading: obligations that fail with helper predicates opaque are decided again with the helpers'
+	// bodies in place of the calls (equivalent conditions); holding under either reading is holding.
+	if len(rep.ByStatus(an.Violation))+len(rep.ByStatus(an.Undecided)) > 0 {
+		w2 := an.NewWorld(p)
+		w2.Vocab = w.Vocab
+		w2.InlinePreds = true
+		rep2 := an.NewReport(id)
+		func() {
+			defer func() { recover() }()
+			prop.Run(&props.Ctx{P: p, W: w2, R: rep2, Tier: tier})
+		}()
+		second := map[string]*an.Obligation{}
+		for _, ob := range rep2.Obligations {
+			second[ob.Key()] = ob
+		}
+		n := 0
+		for _, ob := range rep.Obligations {
+			if ob.St() != an.Violation && ob.St() != an.Undecided {
+				continue
+			}
+			if ob2 := second[ob.Key()]; ob2 != nil && ob2.St() == an.OK {
+				ob.Discharge("holds with helper predicates replaced by their bodies. " + ob2.Detail)
+				n++
+			}
+		}
+		if n > 0 {
+			rep.Note("%d obligation(s) decided on the second reading (helper predicates inlined)", n)
+		}
+	}
 	for _, rn := range w.Renamed {
 		rep.Note("renamed local recognised: %s", rn)
+	}
+	for _, sp := range w.Spliced {
+		rep.Note("new helper read in place of its call: %s", sp)
 	}
 	known, err := loadKnown(o.verif)
 	if err != nil {
